@@ -1,4 +1,5 @@
 import PyxisVerif.Props.C08
+import PyxisVerif.Props.CaseLift
 #print axioms PyxisVerif.C08.values
 #print axioms PyxisVerif.C08.repr
 #print axioms PyxisVerif.C08.emitted
@@ -8,3 +9,8 @@ import PyxisVerif.Props.C08
 #print axioms PyxisVerif.C08.cast_of_fits
 #print axioms PyxisVerif.C08.discriminant_is_value_partial
 #print axioms PyxisVerif.C08.negative_in_unsigned_accepted
+#print axioms PyxisVerif.C08.case_values
+#print axioms PyxisVerif.C08.case_repr
+#print axioms PyxisVerif.C08.case_default_marker
+#print axioms PyxisVerif.C08.case_values_fit_width
+#print axioms PyxisVerif.C08.case_discriminant_is_value_partial
